@@ -34,6 +34,10 @@ def handleLine (fs : List (List String)) : Option String :=
     some ("L " ++ " ".intercalate ((Verif.Num.renderFixed4 (neg == "1") (nat! k)).map toString))
   | [["fixed4parse"], cps] =>
     some (match Verif.Num.parseFixed4 (cps.map nat!) with | some (ng, k) => s!"F {if ng then 1 else 0} {k}" | none => "none")
+  | [["fixed2render"], [neg, k]] =>
+    some ("L " ++ " ".intercalate ((Verif.Num.renderFixed2 (neg == "1") (nat! k)).map toString))
+  | [["fixed2parse"], cps] =>
+    some (match Verif.Num.parseFixed2 (cps.map nat!) with | some (ng, k) => s!"F {if ng then 1 else 0} {k}" | none => "none")
   | [["intrender"], [n]] =>
     some ("L " ++ " ".intercalate ((Verif.Num.renderInt (int! n)).map toString))
   | [["intparse"], cps] =>
